@@ -28,7 +28,8 @@ def plan(tier):
                  ("public", 2, [("dense", 1, 4)], PUBLIC_Q), ("public", 3, [("dense", 1, 2)], PUBLIC_Q)]
         addL = 4
     else:
-        specs = [("kernels", 2, [("dense", 1, 7), ("bounded", 3, 8, 10), ("near", 2, 4)], MENU_T[::3]),
+        specs = [("kernels", 2, [("dense", 1, 6)], MENU_T[::3]),
+                 ("kernels", 2, [("dense", 7, 7), ("bounded", 3, 8, 9), ("near", 2, 4)], MENU_Q),
                  ("public", 2, [("dense", 1, 6)], PUBLIC_Q), ("public", 3, [("dense", 1, 4)], PUBLIC_Q)]
         addL = 5
     tasks, descs = [], []
